@@ -138,6 +138,12 @@ class LoadedDoc:
             if t not in seen:
                 seen.add(t)
                 self.hay_texts.append(t)
+        # name() turns keys and indexes into nodes: the texts of the indexes and of None (the root's name)
+        longest = max([len(n) for n in self.nodes if isinstance(n, (list, tuple))] + [0])
+        for t in ["None"] + [str(i) for i in range(min(longest, 12))]:
+            if t not in seen:
+                seen.add(t)
+                self.hay_texts.append(t)
 
     def snapshot(self):
         return docenc.Encoder.node(self.enc, self.data)
@@ -186,12 +192,29 @@ def psegs_sexp(path):
         return exc_line(e)
 
 
+def node_or_name_sexp(ld, x):
+    """In a query whose path contains a name() segment (name_mode), a scalar node whose value is its own
+    parentref is printed by value: the result of name() is the key
+    or index object itself, whose CPython identity is an accident (interned small ints and 1-char strings
+    may or may not coincide with scalars of the document).  ocaml/drv_eval.ml applies the same rule."""
+    n = x.node
+    if _ENV.get("name_mode") and not (is_container(n) or isinstance(n, (list, _ENV["NodeCoords"]))):
+        try:
+            pv = docenc.pyval_sexp(n)
+            # None: name() of the root is the None singleton, whose identity is that of every null of the document
+            if n is None or pv == ref_sexp(x.parentref):
+                return "(v %s)" % pv
+        except Exception:  # noqa
+            pass
+    return item_sexp(ld, n)
+
+
 def item_sexp(ld, x):
     E = _ENV
     if isinstance(x, E["NodeCoords"]):
         ptxt = x.path.original if isinstance(x.path, E["YAMLPath"]) else ("" if x.path is None else str(x.path))
         anc = " ".join("(%s %s)" % (parent_sexp(ld, a), ref_sexp(b)) for (a, b) in x.ancestry)
-        return "(nc %s %s %s %s %s (%s))" % (item_sexp(ld, x.node), parent_sexp(ld, x.parent), ref_sexp(x.parentref),
+        return "(nc %s %s %s %s %s (%s))" % (node_or_name_sexp(ld, x), parent_sexp(ld, x.parent), ref_sexp(x.parentref),
                                              hexs(ptxt), psegs_sexp(x.path), anc)
     k = id(x)
     if k in ld.enc.oids:
@@ -209,6 +232,7 @@ def observe_one(ld, path, mode):
     exc = None
     res = None
     E["creations"] = 0
+    E["name_mode"] = "name(" in path
     try:
         if mode == "exists":
             res = proc.exists(path)
@@ -238,7 +262,43 @@ def requests(case):
     for p in paths:
         out.extend(request_lines(ld, p))
     _CACHE[(doc, tuple(paths))] = ld
+    _CACHE2[(doc, tuple(paths))] = ld
     return out
+
+
+_CACHE2 = {}
+
+
+def is_collector_path(path):
+    t = path
+    for k in ("has_child(", "name(", "max(", "min(", "parent(", "unique(", "distinct("):
+        t = t.replace(k, "")
+    return "(" in t
+
+
+def frag_requests(case):
+    """model-only requests: the fragment of Spec/SpecC15kw.v each collector path (and every 6th other path) is in"""
+    doc, paths = case
+    ld = _CACHE2.pop((doc, tuple(paths)), None)
+    _CACHE2.clear()
+    if ld is None:
+        return []
+    out = []
+    for i, p in enumerate(paths):
+        if is_collector_path(p) or i % 6 == 0:
+            lit, re_t = tables_for(ld, p)
+            out.append("(frag %s %s %s %s %s)" % (hexs(p), ld.sexp, lit, re_t, ld.nstr))
+    return out
+
+
+def frag_stats(case, outs):
+    doc, paths = case
+    sel = [p for i, p in enumerate(paths) if is_collector_path(p) or i % 6 == 0]
+    h = {}
+    for p, o in zip(sel, outs):
+        k = "%s:%s" % ("collector" if is_collector_path(p) else "plain", o.strip("()").replace("frag ", "frag="))
+        h[k] = h.get(k, 0) + 1
+    return h
 
 
 def observe(case):
@@ -379,6 +439,169 @@ def seg_vocab(rich):
 COLLECTORS = ["(a)", "(b)", "(*)", "(**)", "([0])", "(a)+(b)", "(a)-(b)", "(a)&(b)", "(*)-(a)", "(**)&(a)",
               "(a)+(b)-(a)", "([0:2])", "(a.b)", "((a)+(b))", "(a)(b)", "()", "(a)+([0])", "(*)-([0])",
               "([.=1])", "(a)-(a)", "(**)-(a)", "(*)&(*)", "([0])+([1])-([0])"]
+
+
+# ---- keyword-search segments (keywordsearches.py through Keywords.v / EvalKw.v) ----
+KW_SEGS = [
+    "[has_child(a)]", "[!has_child(a)]", "[has_child(b)]", "[has_child(1)]", "[has_child(&x)]", "[!has_child(&x)]",
+    "[has_child(&y)]", "[has_child()]", "[has_child(,)]", "[!has_child(,)]", "[has_child(a,b)]", "[has_child(name)]",
+    "[name()]", "[!name()]", "[name(a)]", "[name(a,b)]",
+    "[max()]", "[!max()]", "[max(a)]", "[!max(a)]", "[max(b)]", "[max(val)]", "[max(a,b)]", "[max(1)]",
+    "[min()]", "[!min()]", "[min(a)]", "[!min(a)]", "[min(b)]", "[min(val)]", "[min(a,b)]", "[min(k)]",
+    "[parent()]", "[parent(0)]", "[parent(1)]", "[parent(2)]", "[parent(3)]", "[parent(9)]", "[parent(-1)]",
+    "[parent(x)]", "[!parent()]", "[parent(1,2)]", "[parent( 2 )]", "[parent(1_0)]",
+    "[unique()]", "[!unique()]", "[unique(a)]", "[!unique(a)]", "[unique(val)]", "[unique(a,b)]",
+    "[distinct()]", "[!distinct()]", "[distinct(a)]", "[distinct(b)]", "[distinct(a,b)]",
+]
+
+# documents for the keyword handlers: nulls, empty containers, mixed-type lists, lists holding lists / hashes
+# (unhashable members), Array-of-Hashes and hash-of-hashes with the attribute present / absent / null /
+# a container, the "single node" shape, sets, anchors, nesting for parent() chains
+KW_DOCS = [
+    "[3, 1, 3, null, 2]", "[1, 1.0, true, '1', a]", "[b, a, null, b, 10, '9']", "[1, [2], 1]", "[1, {a: 1}, 1]",
+    "[[1], [1]]", "[[], {}]", "[]", "{}", "[null]", "[null, null]", "[1.5, 2.5, 2.50, null]",
+    "[{a: 1}, {a: 3}, {b: 2}, {a: null}, null, {a: 3}]", "[{a: null}, {a: 1}]", "[null, {a: 2}, {a: 1}]",
+    "[{a: [1]}, {a: 2}]", "[{a: {b: 1}}, {a: {b: 1}}, {a: 1}]", "[{a: b, b: 1}, {a: b, b: 2}, {a: c}]",
+    "{r1: {a: 1}, r2: {a: 2}, r3: {b: 1}, r4: {a: null}, r5: {a: 2}}", "{r1: {a: 1}, r2: 5}",
+    "{r1: {a: [1]}, r2: {a: 1}}", "{a: 1, r: {a: 1}}", "{a: {a: 1}, b: 2}", "{r1: null, r2: {a: 1}}",
+    "{x: [{a: 1}, {a: 2}], y: {p: {a: 1}, q: {a: 1}}, z: [3, 1, 2], w: null, e: [], f: {}}",
+    "{a: {b: {c: [1, 2, {d: 5}]}}}", "x: [[{a: 1}]]\n", "[[{a: 1}, {a: 2}], [{a: 3}]]",
+    "s: !!set\n  ? a\n  ? b\n", "!!set\n? a\n? b\n", "!!set\n? null\n",
+    "a: &x {k: 1}\nb: *x\nc: [*x, &y 2, *y]\n", "- &x a\n- *x\n- &y [1]\n- *y\n", "[{k: &x 1}, {j: 2}, null]",
+    "{&x k: 1, j: &y {m: 1}}", "{'a.b': {a: 1}, 'c/d': {a: 2}, 'e f': [1, 2]}",
+]
+
+KW_PREFIXES = [("a", True), ("b", True), ("x", True), ("r1", True), ("z", True), ("y", True), ("c", True),
+               ("[0]", False), ("[1]", False), ("[-1]", False), ("[5]", False), ("*", True), ("**", True),
+               ("[0:2]", False), ("[1:1]", False), ("[0:9]", False), ("[5:9]", False), ("[a:z]", False),
+               ("[a=1]", False), ("[.>1]", False), ("[.=~/./]", False), ("[a!=1]", False), ("[&x]", False),
+               ("(a)", False), ("(*)", False), ("(**)", False), ("([0:2])", False), ("(a)+(b)", False)]
+KW_SUFFIXES = [("a", True), ("b", True), ("k", True), ("[0]", False), ("[-1]", False), ("[0:1]", False),
+               ("*", True), ("**", True), ("[.>1]", False), ("[a=1]", False), ("[.=~/./]", False), ("[&x]", False)]
+KW_CHAINS = ["a.b.c[parent()][parent()]", "a.b.c[2].d[parent(2)][parent()][name()]", "**[parent()]", "**[parent(2)]",
+             "**[name()]", "*[parent()][name()]", "*.*[parent()]", "*.*[parent(2)]", "**[parent()][parent()]",
+             "x[0].a[parent(2)][has_child(a)]", "x[max(a)][parent()]", "x[max(a)].a", "x[!max(a)][name()]",
+             "y[distinct(a)][parent()][name()]", "y[unique(a)]", "**[has_child(a)][max(a)]", "**[max(a)]",
+             "**[!has_child(a)]", "*[max()]", "*[unique()]", "*[has_child(a)]", "z[max()][parent()][min()]",
+             "x[0:2][max(a)][parent()]", "x[0:1][0:1][0][max(a)]", "x[0:1][0:1][0][has_child(a)]",
+             "[0:2][0:1][0][unique(a)]", "[0:1][0:1][0][max(a)]", "[0:9][unique()]", "[0:9][!unique()]",
+             "[0:9][max()]", "[0:9][!min()]", "[0:9][distinct()][parent()]", "[1:1][max()]", "[1:1][has_child(1)]",
+             "[0:9][has_child(a)]", "[0:9][!has_child(a)]", "[0:9][name()]", "[0:9][parent()][name()]",
+             "/x/*[parent()]", "/**[name()]", "/y/*[name()]", "/a/b/c[parent(3)]", "/a/b/c[parent(4)]",
+             "(**)[unique()]", "(*)[max()]", "(**)[!max()]", "(a)[name()]", "(*)[parent()]", "(*)[0][parent()]",
+             "(x.*)[distinct()]", "(a)+(b)[min()]", "[has_child(a)][has_child(b)]", "[name()][name()]",
+             "[name()][.=~/./]", "**[name()][.^a]", "[max(a)][max(b)]", "[parent(0)][parent(0)]"]
+
+
+def kw_two_segment_paths():
+    out = []
+    for k in KW_SEGS:
+        for pre in KW_PREFIXES:
+            out.append(join_dot([pre, (k, False)]))
+        for suf in KW_SUFFIXES:
+            out.append(join_dot([(k, False), suf]))
+    for pre in KW_PREFIXES[:13]:
+        for k in KW_SEGS[::3]:
+            out.append(to_slash([pre, (k, False)]))
+    return out
+
+
+def gen_kw_cases(tier, seed):
+    """Keyword segments at every position of a path, over the keyword documents and the general ones."""
+    thorough = tier == "thorough"
+    rng = random.Random(seed * 7919 + 13)
+    one = list(KW_SEGS) + [to_slash([(k, False)]) for k in KW_SEGS]
+    two = kw_two_segment_paths()
+    # an anchored YAML boolean (ruamel ScalarBoolean) among values COMPARED by max/min is outside the domain
+    # of Keywords.v (docs/C13.md); the general stream keeps those documents
+    docs = list(KW_DOCS) + [d for d in SPECIAL_DOCS if "&x true" not in d]
+    for d in docs:
+        yield (d, one + KW_CHAINS)
+    for d in small_docs(3 if thorough else 2):
+        yield (d, one)
+    for d in docs:
+        k = len(two) if thorough else 500
+        for part in chunk_list(rng.sample(two, min(k, len(two))), 800):
+            yield (d, part)
+    # small trees x sampled two-segment paths
+    for d in small_docs(4 if thorough else 3):
+        if not thorough and rng.random() < 0.7:
+            continue
+        yield (d, rng.sample(two, 12) + rng.sample(KW_CHAINS, 4))
+    # random documents x random paths with keyword segments at random positions
+    vocab = seg_vocab(True)
+    kwv = [(k, False) for k in KW_SEGS]
+    for _ in range(6000 if thorough else 900):
+        d = random_doc(rng) if rng.random() < 0.7 else random_kw_doc(rng)
+        paths = []
+        for _ in range(10):
+            n = rng.randint(1, 4)
+            parts = [rng.choice(vocab) if rng.random() < 0.55 else rng.choice(KW_PREFIXES + KW_SUFFIXES) for _ in range(n)]
+            for _ in range(rng.randint(1, 2)):
+                parts.insert(rng.randint(0, len(parts)), rng.choice(kwv))
+            paths.append(to_slash(parts) if rng.random() < 0.3 else join_dot(parts))
+        yield (d, paths)
+
+
+# ---- collector expressions whose operands select scalars (C15: "collectors limited to operands selecting scalars") ----
+SC_OPERANDS = ["a", "b", "c", "*", "**", "[0]", "[1]", "[-1]", "x.a", "x.*", "z[0]", "z.*", "[.>1]", "[.=~/./]",
+               "**[.^a]", "z[max()]", "w", "nope"]
+SC_DOCS = ["{a: 1, b: 2, c: a}", "[1, 2, 1, null]", "{x: {a: 1, b: 1}, z: [3, 1, 2], w: null, a: 1}", "{a: 1}",
+           "[a]", "{}", "[]", "{a: null, b: '', c: 1.5}", "[a, b, a]", "{z: [1, 1], x: {a: 1}, b: true}"]
+SC_TAILS = ["", "[0]", "[-1]", "[0:1]", "[max()]", "[!min()]", "[unique()]", "[distinct()]", "[.=1]", "[parent()]",
+            "[name()]", "[has_child(a)]", "*"]
+
+
+def gen_scalar_collector_cases(tier, seed):
+    thorough = tier == "thorough"
+    rng = random.Random(seed * 31 + 5)
+    paths = []
+    for x in SC_OPERANDS:
+        for t in SC_TAILS:
+            paths.append("(%s)%s" % (x, t))
+        for op in "+-&":
+            for y in SC_OPERANDS:
+                paths.append("(%s)%s(%s)" % (x, op, y))
+    for _ in range(1500 if thorough else 300):
+        n = rng.randint(2, 4)
+        e = "(%s)" % rng.choice(SC_OPERANDS)
+        for _ in range(n - 1):
+            e += "%s(%s)" % (rng.choice("+-&"), rng.choice(SC_OPERANDS))
+        paths.append(e + rng.choice(SC_TAILS))
+    for d in SC_DOCS:
+        for part in chunk_list(paths if thorough else rng.sample(paths, 700), 700):
+            yield (d, part)
+
+
+def random_kw_doc(rng):
+    """collections for the keyword handlers: plain lists over mixed pools, AoH / hash-of-hashes with the
+    attribute present / absent / null / a container"""
+    pool = rng.choice([["1", "2", "3", "null"], ["a", "ab", "b", "null", "''"], ["1", "1.0", "true", "'1'", "a"],
+                       ["1.5", "2.5", "2.50", "null"], ["1", "[1]", "{a: 1}", "null", "a"]])
+    def attr():
+        r = rng.random()
+        if r < 0.15:
+            return None
+        return rng.choice(pool)
+    def rec():
+        a = attr()
+        items = []
+        if a is not None:
+            items.append("a: %s" % a)
+        if rng.random() < 0.4:
+            items.append("b: %s" % rng.choice(pool))
+        return "{" + ", ".join(items) + "}"
+    r = rng.random()
+    n = rng.randint(0, 5)
+    if r < 0.3:
+        body = "[" + ", ".join(rng.choice(pool) for _ in range(n)) + "]"
+    elif r < 0.65:
+        body = "[" + ", ".join(("null" if rng.random() < 0.15 else rec()) for _ in range(n)) + "]"
+    else:
+        body = "{" + ", ".join("r%d: %s" % (i, (rng.choice(pool) if rng.random() < 0.15 else rec())) for i in range(n)) + "}"
+    if rng.random() < 0.5:
+        return "{x: %s, a: 1}" % body
+    return body
 
 
 def join_dot(parts):
